@@ -4,6 +4,7 @@ import ast
 from sa.core import (AnalysisError, FUNC, assignments, call_name, class_attr, const, dotted, enclosing, enclosing_func,
                      enclosing_stmt, is_attr, is_name, is_self_attr, literal, norm, params, parent, walk_local, names_in, ancestors)
 from sa.guards import facts, enclosing_loops
+from sa.finite import Interp, C, K, TOP
 
 PROP = "C18"
 REL = "ak/xlsread.py"
@@ -23,6 +24,7 @@ EXPLANATION = (
 
 
 def run(cx):
+    cx.guard(_r18g, cx)
     repo = cx.repo
     for r, t in (("R18a", "value and recorded origin of an attribute derive from the same cell"),
                  ("R18b", "range readers compute origins over the same (title, cell) pairs as the value"),
@@ -205,3 +207,70 @@ def run(cx):
     ok = len(cn) == 1 and isinstance(cn[0], ast.DictComp) and norm(cn[0].generators[0].iter) == "enumerate(cols_names)" and not cn[0].generators[0].ifs and \
         [norm(e) for e in cn[0].generators[0].target.elts] == [norm(cn[0].value), norm(cn[0].key)]
     cx.ob("R18e", it, ok, "column ids are positions in the title row" if ok else "title -> position map altered", stmt="col_names_ids")
+
+
+# ---------------------------------------------------------------------- R18g: the blank-cell predicate
+class _CellInterp(Interp):
+    """str(), .strip() on the finite partition of cell values."""
+
+    def call(self, e, env):
+        name = call_name(e)
+        f = e.func
+        if name == "str" and isinstance(f, ast.Name) and len(e.args) == 1:
+            v = self.ev(e.args[0], env)
+            if isinstance(v, K) and v.kind == "str":
+                return v
+            if isinstance(v, (K, C)):
+                return K("str", empty=False, tag="text")      # 'None', '0', 'False', a date ... never blank
+            return TOP
+        if isinstance(f, ast.Attribute) and name in ("strip", "lstrip", "rstrip") and not e.args:
+            v = self.ev(f.value, env)
+            if isinstance(v, K) and v.kind == "str":
+                if v.empty or v.tag == "ws":
+                    return K("str", empty=True) if name == "strip" or v.empty else TOP
+                return K("str", empty=False, tag="text")
+            return TOP
+        if isinstance(f, ast.Attribute) and name == "isspace" and not e.args:
+            v = self.ev(f.value, env)
+            if isinstance(v, K) and v.kind == "str":
+                return C(v.tag == "ws")
+            return TOP
+        if name == "len" and len(e.args) == 1:
+            v = self.ev(e.args[0], env)
+            if isinstance(v, K) and v.kind == "str" and v.empty is not None:
+                return K("int", tag="zero" if v.empty else "nonzero")
+            return TOP
+        return super().call(e, env)
+
+
+def _r18g(cx):
+    """The blank-cell predicate decides the end-of-table rules and the ladder fill.  Cell values are touched only through
+    `is None`, truthiness, isinstance, str() and strip(): all uniform on the partition below, so the abstract run is exact."""
+    from sa.finite import K as _K, C as _C
+    cx.rule("R18g", "a cell is blank exactly when it holds None, '' or only white space (0, 0.0, False, dates are data)")
+    f = cx.func(REL, "XlsTableReader._cell_is_empty", "R18g")
+    ps = [p for p in params(f) if p not in ("self", "cls")]
+    cx.need(len(ps) == 1, "R18g", f, "one cell parameter")
+    cell = ps[0]
+    classes = [("None", _K("none"), True), ("''", _K("str", empty=True), True), ("white space only", _K("str", empty=False, tag="ws"), True),
+               ("text", _K("str", empty=False, tag="text"), False), ("int 0", _K("int", tag="zero"), False), ("int != 0", _K("int", tag="nonzero"), False),
+               ("float 0.0", _K("float", tag="zero"), False), ("float != 0", _K("float", tag="nonzero"), False), ("False", _C(False), False),
+               ("True", _C(True), False), ("date / other object", _K("other", empty=False, tag="datetime"), False)]
+    for label, val, want in classes:
+        it = _CellInterp()
+        outs = it.run(f.body, {f"{cell}.value": val})
+        res = set()
+        for o in outs:
+            if o.how == "return" and isinstance(o.value, C) and isinstance(o.value.v, bool):
+                res.add(o.value.v)
+            elif o.how == "return" and isinstance(o.value, _K) and o.value.kind == "str" and o.value.empty is not None:
+                res.add(not o.value.empty)      # `return value and ...` style results are used for their truth
+            else:
+                raise AnalysisError("R18g", f"{REL}::_cell_is_empty", f"result for a cell holding {label} is not decided ({o})")
+        ok = res == {want}
+        cx.ob("R18g", f, ok, f"cell holding {label}: {'blank' if want else 'data'}" if ok else
+              f"a cell holding {label} is classified as {'blank' if True in res else 'data'}{' on some paths' if len(res) > 1 else ''}: "
+              + ("rows / leading cells holding it are treated as blank (table ends early, ladder fill overwrites it)" if not want else "blank cells are treated as data"),
+              stmt=f"_cell_is_empty({label})")
+    users = [c for m, q, g in cx.repo.functions({REL}) for c in walk_local(g) if isinstance(c, ast.Call) and call_name(c) == "_cell_is_empty"]
+    cx.at_least("R18g", "uses of the blank-cell predicate", len(users), 3)
